@@ -41,7 +41,7 @@ RULE = ('One case = (a) a generated chart with contracts (conditions are probes;
         'Non-trivial = distinct runs with >= 10 condition evaluations on the checked side and 0 on the other.')
 ASSUMPTIONS = ['conditions of generated charts are side-effect free apart from the probe counter',
                'shipped charts: elevator_contract.yaml, microwave_with_contracts.yaml']
-REQUIRED_COUNTERS = ['runs_with_eager_evaluator', 'steps_compared', 'runs_with_10plus_evaluations', 'shipped_chart_runs', 'runs_with_planned_failures',
+REQUIRED_COUNTERS = ['runs_with_bound_property_statechart', 'runs_with_eager_evaluator', 'steps_compared', 'runs_with_10plus_evaluations', 'shipped_chart_runs', 'runs_with_planned_failures',
                      'conditions_evaluated_checked_side', 'time_predicate_guard_steps']
 TIERS = dict(quick=dict(steps=30, gen=dict(max_states=12, max_depth=4, max_trans=14)),
              thorough=dict(steps=60, gen=dict(max_states=18, max_depth=5, max_trans=24)))
@@ -73,6 +73,10 @@ def run_case(acc, rnd, tier, case):
         cond_plan = lambda cid, i: fv(i, cid)      # noqa: E731
         acc.count('runs_with_planned_failures')
     sides = []
+    bind_outcome = []
+    with_property = rnd.random() < 0.3
+    if with_property:
+        acc.count('runs_with_bound_property_statechart')
     eager = rnd.random() < 0.3 and not failing
     if eager:
         acc.count('runs_with_eager_evaluator')
@@ -83,9 +87,23 @@ def run_case(acc, rnd, tier, case):
         it = Interpreter(sc, initial_context=pr.context(v=0, box=Box(), lst=[], res={'h': Handle()}), ignore_contract=ignore,
                          evaluator_klass=EagerEvaluator if eager else PythonEvaluator)
         it.attach(pr.listener())
+        if with_property:
+            from .c10 import recording_property, KINDS
+
+            def factory(statechart, *, clock):          # exactly the documented signature of interpreter_klass
+                return Interpreter(statechart, clock=clock, initial_context={'R': lambda event, time: None})
+            try:
+                it.bind_property_statechart(recording_property(KINDS + ['m0', 'm1']), interpreter_klass=factory)
+                bind_outcome.append('ok')
+            except Exception as e:      # noqa
+                bind_outcome.append('%s: %s' % (type(e).__name__, str(e)[:120]))
         sides.append((pr, it, Runner(it, tmap, log=pr.log)))
     (pa, ia, ra), (pb, ib, rb) = sides
     wit = dict(chart=ch, script=script, p_true=p_true, failing=failing)
+    if with_property and bind_outcome != ['ok', 'ok']:
+        acc.violation('C09:binding-a-property-statechart-differs', 'bind_property_statechart with a factory of the documented signature '
+                      '(statechart, *, clock): checked interpreter -> %s; ignore_contract=True interpreter -> %s' % tuple(bind_outcome), wit)
+        return
     k = 0
     evals = 0
     for op in script:
